@@ -208,6 +208,18 @@ func runC16(c *core.Ctx) {
 				}
 			})
 		}
+		// and under that field alone: another flag of the codec being off (or on) is not a precondition
+		// (`switch { case a: A(); case b: B() }` applies B only when a is false)
+		if field != nil {
+			c.Instance("R2")
+			alone := true
+			for _, f := range knownBools(call) {
+				if of, _ := core.FieldOf(f.V); of != nil && of != field && isBool(of.Type()) {
+					alone = false
+				}
+			}
+			c.Check(alone, "R2", "json/flag/"+fm.method+"/independent", p.InstrPos(call), "applied whenever its own flag is set", fm.method+" is applied only for some values of another flag of the codec: with both flags set one of them is silently not applied")
+		}
 		c.Check(onSame && field != nil && filled, "R2", "json/flag/"+fm.method, p.InstrPos(call), fm.method+" applied to the decoding Decoder under the field filled from constructor parameter #"+itoa(fm.param+1),
 			fm.method+" is not applied under the codec field that the constructor fills from its parameter #"+itoa(fm.param+1)+" (flags swapped, dropped or applied to another decoder): number preservation / unknown-field rejection silently off")
 	}
